@@ -155,6 +155,32 @@ def discharge(crate, sub, bi, kind, cs):
                         return "index is a char_indices() offset of the same (parameter) string"
             return None
         return None
+    if kind in ("split_at", "split_at_mut") and cs is not None and len(cs.args) == 2:
+        # s.split_at(i) with i = s.find(..).unwrap_or(s.len()) / a char_indices offset / s.len() of the SAME string: a char boundary within bounds
+        recv = strip_role(sub.role_of_operand(cs.args[0]))
+        idx = strip_role(sub.role_of_operand(cs.args[1]))
+
+        def boundary_of(r, depth=0):
+            r = strip_role(r)
+            if not isinstance(r, tuple) or depth > 6:
+                return False
+            if r[0] == "call" and r[1] in ("find", "rfind", "len") and r[3] and strip_role(r[3][0]) == recv:
+                return True
+            if r[0] == "call" and r[1] in ("unwrap_or", "unwrap_or_else", "unwrap_or_default") and r[3]:
+                alt_ok = len(r[3]) < 2 or boundary_of(r[3][1], depth + 1) or (isinstance(strip_role(r[3][1]), tuple) and strip_role(r[3][1])[0] == "const" and const_int(strip_role(r[3][1])[1]) == 0)
+                return boundary_of(r[3][0], depth + 1) and alt_ok
+            if r[0] in ("variant", "field"):
+                return boundary_of(r[1], depth + 1)
+            if r[0] == "phi":
+                return all(boundary_of(x, depth + 1) for x in r[1])
+            if r[0] == "call" and r[1] == "char_indices":
+                return r[3] and strip_role(r[3][0]) == recv
+            if r[0] == "call" and r[1] in ("next", "find", "position") and r[3]:
+                return boundary_of(r[3][0], depth + 1) if r[1] != "position" else False
+            return False
+        if recv[0] == "param" and boundary_of(idx):
+            return "split index is a find()/char_indices()/len() offset of the same (parameter) string: a char boundary within bounds"
+        return None
     if kind == "assert:bounds":
         ln, ix = t["aops"][0], t["aops"][1]
         ixr = sub.role_of_operand(ix)
